@@ -99,9 +99,11 @@ def node_worlds(repo: Repo, module: str = 'plinio.graph.inspection') -> List[Tup
                                            'submodule': sub, 'dim': 1, 'token': k, 'tag': tag}))
     for k, v in funcs:
         for dim in (1, 2):
-            worlds.append((f'{k} [dim={dim}]', {'op': 'call_function', 'target': v,
+            # the axis passed positionally ([dim=d]) and by keyword ([dim=d kw])
+            for form, tag in (('pos', f'dim={dim}'), ('kw', f'dim={dim} kw')):
+                worlds.append((f'{k} [{tag}]', {'op': 'call_function', 'target': v,
                                                'submodule': None, 'dim': dim, 'token': k,
-                                               'tag': f'dim={dim}'}))
+                                               'tag': tag, 'form': form}))
     for k, v in meths:
         worlds.append((k, {'op': 'call_method', 'target': v, 'submodule': None, 'dim': 1,
                            'token': k, 'tag': ''}))
@@ -124,11 +126,34 @@ def classify(repo: Repo, preds: List[str], module: str = 'plinio.graph.inspectio
             return call
         for name in fdefs:
             glob[name] = make(name)
-        glob['try_get_args'] = lambda n, parent, pos, kw, default: w['dim']
+        # the argument accessor of graph/utils.py is interpreted on the node's real args /
+        # kwargs (so that "positional only" / "keyword only" look-ups are told apart); the
+        # stub is the fallback when it is not interpretable
+        tga = None
+        um = repo.modules.get('plinio.graph.utils')
+        if um is not None:
+            tga = next((n for n in um.tree.body if isinstance(n, ast.FunctionDef) and
+                        n.name == 'try_get_args'), None)
+
+        def try_get_args(n, parent, pos, kw, default, _w=w, _tga=tga):
+            if _tga is not None and _w['op'] != 'call_module':
+                try:
+                    return _M(glob, _w).call_function(_tga, [n, parent, pos, kw, default])
+                except (Unsupported, Raised):
+                    pass
+            return _w['dim']
+        glob['try_get_args'] = try_get_args
         node = Obj('Node')
+        inp = [Obj('Node'), Obj('Node')]
+        if w['op'] == 'call_module':
+            args, kwargs = (), {}
+        elif w.get('form') == 'kw':
+            args, kwargs = (inp,), {'dim': w['dim'], 'start_dim': w['dim']}
+        else:
+            args, kwargs = (inp, w['dim']), {}
         node.attrs.update({'op': w['op'], 'target': w['target'],
-                           'all_input_nodes': [Obj('Node'), Obj('Node')],     # a 2-input node
-                           'args': (), 'kwargs': {}, 'meta': {}, 'name': 'node'})
+                           'all_input_nodes': inp,     # a 2-input node
+                           'args': args, 'kwargs': kwargs, 'meta': {}, 'name': 'node'})
         parent = Obj('GraphModule')
 
         def get_submodule(name, _w=w):
